@@ -301,25 +301,26 @@ def PTier.dejitter (t : PTier α) (refs : List α) (maxDiff : α) : Except Err (
     pure (⟨x, p.l⟩ : Pt α)
   t.new (ps := some ps)
 
-/-- the loop of `IntervalTier.morph`: `sel l` says whether the filter selects label `l` -/
-def morphGo (sel : String → Bool) (cum : α) : List (Iv α) → List (Iv α) → List (Iv α)
+/-- the loop of `IntervalTier.morph` (after the fix in /repo: every interval starts where the previous one
+ended plus the original gap); `sel l` says whether the filter selects label `l`;
+`prev` = (end of the previous source interval, end of the previous new interval) -/
+def morphGo (sel : String → Bool) (prev : Option (α × α)) : List (Iv α) → List (Iv α) → List (Iv α)
   | src :: ss, tgt :: ts =>
-    let ns := src.s + cum
-    let cur := src.e - src.s
-    if sel src.l then
-      let nd := tgt.e - tgt.s
-      ⟨ns, ns + nd, src.l⟩ :: morphGo sel (cum + (nd - cur)) ss ts
-    else
-      ⟨ns, ns + cur, src.l⟩ :: morphGo sel cum ss ts
+    let ns := match prev with
+      | none => src.s
+      | some (lastSrcEnd, lastNewEnd) => lastNewEnd + (src.s - lastSrcEnd)
+    let dur := if sel src.l then tgt.e - tgt.s else src.e - src.s
+    let ne := ns + dur
+    ⟨ns, ne, src.l⟩ :: morphGo sel (some (src.e, ne)) ss ts
   | _, _ => []
 
 /-- `IntervalTier.morph(targetTier, filterFunc)` -/
 def ITier.morph (t u : ITier α) (sel : String → Bool) : Except Err (ITier α) :=
   if t.es.length ≠ u.es.length then .error .SafeZipException
   else
-    let es := morphGo sel Tm.zero t.es u.es
+    let es := morphGo sel none t.es u.es
     match es.getLast?, t.es.getLast? with
-    | some ne, some oe => mkITier t.name es (some t.lo) (some (t.hi + (ne.e - oe.e)))
+    | some ne, some oe => mkITier t.name es (some t.lo) (some (ne.e + (t.hi - oe.e)))
     | _, _ => .error .IndexError
 
 /-! ## queries -/
